@@ -182,7 +182,7 @@ class Drive:
 
 
 class Library:
-    """Ground truth built from ``recipe = {"seed", "shape", "page_size", "strip_fraction"?, "empty_pages"?, "prefix_siblings"?}``.
+    """Ground truth built from ``recipe = {"seed", "shape", "page_size", "strip_fraction"?, "empty_pages"?, "prefix_siblings"?, "ext_shapes"?}``.
 
     ``prefix_siblings``: next to some folders (any depth) there are sibling folders whose name extends the folder's name
     ("Plan" / "Plan2024" / "Plan old") or is a proper prefix of it ("Pl"), each with files of its own and sometimes a
@@ -214,6 +214,8 @@ class Library:
             self._fill(root, 0, self.shape["spine"] if i == 0 else min(2, self.shape["spine"]))
             if recipe.get("prefix_siblings"):
                 self._add_prefix_siblings(root)
+            if recipe.get("ext_shapes"):
+                self._add_ext_shapes(root)
             d.index()
             self.drives.append(d)
         self.default_drive = self.drives[0]
@@ -304,6 +306,26 @@ class Library:
         c.created = (c.modified[0] - rng.choice([0, 5, 86400]), rng.choice(_FRACS))
         folder.children.insert(rng.randrange(len(folder.children) + 1), c)
         return c
+
+    def _add_ext_shapes(self, root: Node):
+        """``ext_shapes``: file names whose "extension" is not simply the text after the only dot — compound extensions in
+        several letter cases, names that are nothing but an extension (dot-files), names equal to an extension without its
+        dot, a trailing dot, no dot at all — spread over the root and random folders."""
+        rng = self._rng
+        folders, stack = [root], [root]
+        while stack:
+            f = stack.pop()
+            for c in f.children:
+                if c.kind == "folder":
+                    folders.append(c)
+                    stack.append(c)
+        pool = ["backup.tar.gz", "B.TAR.GZ", "logs 2024.Tar.Gz", "types.d.ts", "app.min.js", "vendor.MIN.JS", ".gitignore", ".htaccess", ".ENV",
+                ".tar.gz", "tar.gz", "gz", "archive.tar", "notes.gz", "x.pdf.bak", "report.", "README", "a.b.c.d", "index.d.mts", "säule.tar.gz"]
+        rng.shuffle(pool)
+        for nm in pool[: rng.randint(8, 14)]:
+            f = rng.choice(folders[:1] + folders)
+            if nm.lower() not in {c.name.lower() for c in f.children}:
+                self._add_child(f, nm, "file")
 
     def _add_prefix_siblings(self, root: Node):
         rng = self._rng
